@@ -390,7 +390,10 @@ class DataFormat(object):
                 KEY_THOUSANDS_SEPARATOR, value, _VALID_THOUSANDS_SEPARATORS, location
             )
         else:
-            assert False, "name=%r" % name
+            # For example "is valid", which matches an internal attribute but is no property.
+            raise errors.InterfaceError(
+                "data format property %s for format %s cannot be set" % (_compat.text_repr(name), self.format), location
+            )
 
     @staticmethod
     def _validated_choice(key, value, choices, location, ignore_case=False):
